@@ -31,6 +31,11 @@ COMMON_TABLE = set(K.MF["common_table_keys"]) | {"dataset"}
 
 
 SPECIAL = [
+    "CREATE TABLE x (a int, b int);\nCREATE TEMPORARY TABLE x (a int, b int, c int);\nALTER TABLE x ADD UNIQUE (a);\nCREATE INDEX i1 ON x (b);\n",
+    "CREATE TABLE s1.x (a int, b int);\nCREATE EXTERNAL TABLE s1.x (a int, b int, c int);\nALTER TABLE s1.x ADD c2 int;\nCREATE UNIQUE INDEX i1 ON s1.x (b DESC);\n",
+    "CREATE TRANSIENT TABLE x (a int, b int);\nCREATE TABLE x (a int, b int, c int);\nALTER TABLE x DROP COLUMN b;\nALTER TABLE x ADD PRIMARY KEY (a);\n",
+    "CREATE TEMP TABLE x (a int);\nCREATE TEMP TABLE x (a int, b int);\nCREATE OR REPLACE TABLE x (a int, b int, c int);\nALTER TABLE x RENAME COLUMN a TO a2;\n",
+    "CREATE TABLE t (a int, UNIQUE (b), b int, c int, UNIQUE (c));\n",
     "CREATE TABLE t1 (\n#legacy column, kept for (old) clients\na int,\nb int);\n",
     "#todo: remove\nCREATE TABLE t1 (a int, b int);\n##obsolete\nCREATE TABLE #tmp1 (a int);\n",
     "-- head\nCREATE TABLE t1 (a int, -- one\n b int /* two */\n);\n/* block\n over lines */\nCREATE TABLE [dbo].[t2] ([x] int);\nGO\n",
